@@ -4,7 +4,7 @@
 (* suppression (C18, C01).  Programs are  text  markup  text  [markup text].    *)
 EXTENDS LiquidGen, LiquidAst
 
-CONSTANT Variant   \* "markers" | "blank"
+CONSTANT Variant   \* "markers" | "blank" | "capture"
 
 MCData == { << <<<<"x", IntV(1)>>, <<"e", Str("")>>>>, <<>>, <<>>, <<>> >> }
 MCCfgs == {Cfg(t, s, FALSE, "default") :
@@ -17,7 +17,7 @@ Texts == {NText("  a  "), NText(" \n"), NText("\n b \n"), NText("\r\n\tc\r\n"),
           NText(Conc.ws[5] \o Conc.ws[7] \o "d" \o Conc.ws[11] \o Conc.ws[12]),
           NText(Conc.ws[13] \o "\n" \o Conc.ws[14]), NText(Conc.ws[6] \o " " \o Conc.ws[10])}
 TextsFew == {NText("  a  "), NText(" \n"), NText("\n \r\n")}
-Inner == {<<NText(" i ")>>, <<NText(" \n ")>>, <<>>, <<NText("\n"), NOut(P(V("x"))), NText(" \n")>>}
+Inner == {<<NText(" i ")>>, <<NText(" \n ")>>, <<>>, <<NText("\n"), NOut(P(V("x"))), NText(" \n")>>, <<NText("\r\n j\r")>>}
 
 W(n, wc) == [n EXCEPT !.wc = wc]
 WE(n, wc, ewc) == [n EXCEPT !.wc = wc, !.ewc = ewc]
@@ -61,9 +61,18 @@ BlankBlocks == {If(TrueE, b, <<>>, NoElse) : b \in BlankBodies}
                \cup {With(<<WArg("w", I(1))>>, b) : b \in BlankBodies}
                \cup {Capture("cap", b) : b \in BlankBodies}
 
+\* everything a program binds is printed afterwards, so that what was captured or
+\* assigned inside the marked / suppressed construct is observable
+Prints == {NOut(P(V("y"))), NOut(P(V("z"))), NOut(P(V("cap")))}
+Captures == {WE(Capture("y", b), wc, ewc) : b \in Inner, wc \in WcsFew, ewc \in WcsFew}
+            \cup {W(Assign("y", P(S(" s "))), wc) : wc \in WcsFew}
 MCPoolAt(i) ==
-  IF Variant = "markers"
-  THEN (IF i % 2 = 1 THEN (IF i = 1 THEN Texts ELSE TextsFew) ELSE (IF i = 2 THEN Simple \cup Blocks ELSE {W(NOut(P(V("x"))), wc) : wc \in WcsFew}))
-  ELSE (IF i % 2 = 1 THEN {NText("["), NText("]")} ELSE BlankBlocks \cup {NOut(P(V("cap")))})
+  CASE Variant = "markers" ->
+         (IF i % 2 = 1 THEN (IF i = 1 THEN Texts ELSE TextsFew)
+          ELSE (IF i = 2 THEN Simple \cup Blocks ELSE {W(NOut(P(V("y"))), wc) : wc \in WcsFew}))
+    [] Variant = "capture" ->
+         (IF i % 2 = 1 THEN TextsFew ELSE (IF i = 2 THEN Captures ELSE {W(NOut(P(V("y"))), wc) : wc \in WcsFew}))
+    [] Variant = "blank" ->
+         (IF i % 2 = 1 THEN {NText("["), NText("]")} ELSE (IF i = 2 THEN BlankBlocks ELSE Prints))
 MCPartials == <<>>
 =============================================================================
